@@ -93,10 +93,17 @@ def case_fn(case):
     def viol(clause, wit, detail):
         out.append(V(PROP, clause, site=f"{mk}:{case['method']}",
                      witness=wit, detail=detail, case=case, kind="grid"))
+    kw = dict(model_key=mk, params_initial=P, segment=seg,
+              weight_cp=case["weight_cp"], method=case["method"],
+              range_x=[0, 0], range_type="absolute", gcf_k=1.0)
+    if case.get("kw_order") == "params-first":
+        kw = {k: kw[k] for k in ["params_initial", "segment", "method",
+                                 "model_key", "weight_cp", "range_x",
+                                 "range_type", "gcf_k"]}
+    elif case.get("kw_order") == "reversed":
+        kw = {k: kw[k] for k in reversed(list(kw))}
     try:
-        idnt.fit_model(model_key=mk, params_initial=P, segment=seg,
-                       weight_cp=case["weight_cp"], method=case["method"],
-                       range_x=[0, 0], range_type="absolute", gcf_k=1.0)
+        idnt.fit_model(**kw)
     except BaseException as e:
         if isinstance(e, (KeyboardInterrupt, SystemExit, MemoryError)):
             raise
@@ -190,7 +197,11 @@ def cases(tier):
                                                     "method": meth,
                                                     "corner": list(co),
                                                     "noise": noise,
-                                                    "seed": seed})
+                                                    "seed": seed,
+                                                    "kw_order": ["sorted",
+                                                                 "params-first",
+                                                                 "reversed"][
+                                                        (len(cs)) % 3]})
     return cs
 
 
